@@ -604,7 +604,15 @@ func GenConfig(t *rapid.T, online bool, minBlocks int, commentPerKind, promFilte
 		tags = append(tags, "prom-closed")
 	}
 	if online {
-		sb.WriteString("prometheus \"prom\" {\n  uri = \"" + PromURIPlaceholder + "\"\n  timeout = \"30s\"\n  rateLimit = 100000\n")
+		if rapid.IntRange(0, 2).Draw(t, "cfg.partial") > 0 {
+			// main server partially unavailable: the harness' fake answers 504 for the queries whose
+			// expression hashes into the drawn 4-bit mask, the failover URI answers everything
+			mask := rapid.IntRange(1, 14).Draw(t, "cfg.partialMask")
+			fmt.Fprintf(&sb, "prometheus \"prom\" {\n  uri = \"%s/partial/%d\"\n  failover = [\"%s\"]\n  timeout = \"30s\"\n  rateLimit = 100000\n", PromURIPlaceholder, mask, PromURIAltPlaceholder)
+			tags = append(tags, "partial-outage")
+		} else {
+			sb.WriteString("prometheus \"prom\" {\n  uri = \"" + PromURIPlaceholder + "\"\n  timeout = \"30s\"\n  rateLimit = 100000\n")
+		}
 		if rapid.IntRange(0, 3).Draw(t, "cfg.required") == 0 {
 			sb.WriteString("  required = true\n")
 		}
